@@ -1,28 +1,4 @@
 EXPECTED_FACTS = {
-    "c06_syncmeta_ifs": [
-        "slices.Contains(inputIds, outSp.RunId) && slices.Contains(inputIds, locSp.RunId)",
-        "ri.channel.IsValidOffset(Offset{RunId: locSp.RunId, Offset: outSp.Offset})",
-        "!isFullSync",
-        "slices.Contains(inputIds, outSp.RunId)",
-        "!isFullSync",
-        "slices.Contains(inputIds, locSp.RunId) && outSp.IsInitial()",
-        "locRdbLeft != -1 && locRdbSize != -1",
-        "!isFullSync",
-        "isFullSync",
-        "sOffset.RunId != id1",
-        "isFullSync || clearLocal",
-        "isFullSync",
-        "isFullSync",
-        "outSp.Offset <= 0"
-    ],
-    "c06_psync_args": [
-        "locSp.ToOffset()",
-        "outSp.ToOffset()",
-        "outSp.ToOffset()",
-        "locSp.ToOffset()",
-        "synSp.ToOffset()",
-        "synSp.ToOffset()"
-    ],
     "c06_channel_calls": [
         "syncMeta: ri.channel.StartPoint(inputIds)",
         "syncMeta: ri.channel.IsValidOffset(Offset{RunId: locSp.RunId, Offset: outSp.Offset})",
@@ -40,6 +16,50 @@ EXPECTED_FACTS = {
         "sendOutput: ri.output.ResetStartPoint(ctx, append([]string{reader.RunId()}, ri.RunIds()...))",
         "sendOutput: ri.output.Send(ctx, reader)"
     ],
+    "c06_err_branches": [
+        "syncMeta: id1, id2, err = redis.GetRunIds -> returns",
+        "syncMeta: outSp, err = ri.getOutputStartPoint -> returns",
+        "syncMeta: locSp, err = ri.channel.StartPoint -> falls through",
+        "syncMeta: sOffset, isFullSync, rdbSize, err = ri.pSync -> returns",
+        "syncMeta: sOffset, isFullSync, rdbSize, err = ri.pSync -> returns",
+        "syncMeta: sOffset, isFullSync, rdbSize, err = ri.pSync -> returns",
+        "syncMeta: sOffset, isFullSync, rdbSize, err = ri.pSync -> returns",
+        "syncMeta: sOffset, isFullSync, rdbSize, err = ri.pSync -> returns",
+        "syncMeta: sOffset, isFullSync, rdbSize, err = ri.pSync -> returns",
+        "syncMeta: err = ri.channel.DelRunId -> returns",
+        "syncMeta: err = ri.channel.SetRunId -> returns",
+        "syncMeta: err = ri.output.ResetStartPoint -> returns",
+        "syncMeta: err = ri.output.SetRunId -> returns",
+        "fetchInput: redisCli, err := ri.newRedisConn -> returns",
+        "fetchInput: isFullSync, rdbSize, locSp, outSp, err := ri.syncMeta -> returns",
+        "syncData: if isFullSync { inputStateGauge.Set -> returns",
+        "readChannel: ri.logger.Debugf -> returns",
+        "sendOutput: err := ri.output.ResetStartPoint -> returns"
+    ],
+    "c06_flow_ifs": [
+        "fetchInput: !ri.rdbLimiterAcquire(wait.Done())",
+        "syncData: isFullSync",
+        "syncData: wait.IsClosed()",
+        "syncData: isFullSync",
+        "syncData: aofWriter == nil",
+        "readChannel: wait.IsClosed()",
+        "sendOutput: wait.IsClosed()",
+        "sendOutput: !reader.IsAof()"
+    ],
+    "c06_handoff_stores": [
+        "sendRdb: return ro.setCheckpoint(ctx, reader.RunId(), reader.Left(), config.Version)",
+        "ResetStartPoint: ro.checkpointInMem = checkpoint.CheckpointInfo{Key: ro.cfg.CheckpointName, RunId: \"?\", Offset: -1, Version: config.Version}",
+        "setCheckpoint: ro.checkpointInMem = *checkpointKv",
+        "sendCmdsBatch: ro.checkpointInMem.Offset = lastOffset"
+    ],
+    "c06_psync_args": [
+        "locSp.ToOffset()",
+        "outSp.ToOffset()",
+        "outSp.ToOffset()",
+        "locSp.ToOffset()",
+        "synSp.ToOffset()",
+        "synSp.ToOffset()"
+    ],
     "c06_sendpsync_offset": [
         "if offset >= 0",
         "offset += 1",
@@ -48,6 +68,22 @@ EXPECTED_FACTS = {
         "return runid, offset - 1, nil, nil",
         "runid, offset := xx[1], v",
         "return runid, offset, sr.waitRdbDump(), nil"
+    ],
+    "c06_syncmeta_ifs": [
+        "slices.Contains(inputIds, outSp.RunId) && slices.Contains(inputIds, locSp.RunId)",
+        "ri.channel.IsValidOffset(Offset{RunId: locSp.RunId, Offset: outSp.Offset})",
+        "!isFullSync",
+        "slices.Contains(inputIds, outSp.RunId)",
+        "!isFullSync",
+        "slices.Contains(inputIds, locSp.RunId) && outSp.IsInitial()",
+        "locRdbLeft != -1 && locRdbSize != -1",
+        "!isFullSync",
+        "isFullSync",
+        "sOffset.RunId != id1",
+        "isFullSync || clearLocal",
+        "isFullSync",
+        "isFullSync",
+        "outSp.Offset <= 0"
     ]
 }
 
@@ -67,6 +103,12 @@ PROP = {
         "GunYu.Props.C06.truthful_preserved",
         "GunYu.Props.C06.truthful_source_change",
         "GunYu.Props.C06.truthful_initially",
+        "GunYu.Props.C06.truthful_cache_change",
+        "GunYu.Props.C06.reach_inv",
+        "GunYu.Props.C06.reach_safe",
+        "GunYu.Props.C06.reach_never_streams_onto_dirty",
+        "GunYu.Props.C06.snapshot_not_behind",
+        "GunYu.Props.C06.storedCompat_not_invariant",
         "GunYu.Props.C06.reset_on_full_needed",
         "GunYu.Props.C06.no_relabel_at_start_needed",
     ],
@@ -100,6 +142,16 @@ PROP = {
             "fails, the cache is lost. The monitor tracks what the target really holds (history, offset, dirty) and requires every log "
             "delivery to start exactly there, in a prefix of the current history, never after an interrupted replay; the position the "
             "real output holds after each round is compared with the Lean `step` (line `tgt`). "
+            "Half of the window schedules use real replication streams (fixed-length SET commands) and real RDB files and run the REAL "
+            "RedisOutput.Send (SendRdb, then SendAof/sendAof until everything is applied and the position stored): the snapshot-to-stream "
+            "hand-off is judged on the target double's request log (exactly the two snapshot keys, then exactly the commands of the "
+            "current history from the snapshot's / stored offset on, none missing, none twice) and the stored position is read back. "
+            "Window kinds: full-interrupted, restart-rekey, cached-interrupted, failover-continue (stale label in in-memory mode). "
+            "Every 16th case injects a fault into one bookkeeping call (output.ResetStartPoint 1st/2nd call, output.SetRunId, "
+            "channel.DelRunId, channel.SetRunId): the run must end with an error and deliver nothing (monitor only). "
+            "1/10 of the snapshot+log caches lie outside CacheWF (log not starting at the snapshot's offset): there only the query API "
+            "and the decision (q, meta) are compared and the property is not judged; every op carries wf=<SourceWF and CacheWF> computed "
+            "on both sides. "
             "distinct_nontrivial = distinct (backend, stored id class, cache id class, cache shape, stored-vs-cache, backlog, branch, "
             "full, delivered) combinations",
     "trusted": [
@@ -108,10 +160,16 @@ PROP = {
         "source double, recording output and channel proxy in harness/overlay/syncer/vf_c06_test.go",
     ],
     "assumptions": [
-        "CacheOK: bytes the cache holds under its run id are that id's history on the range it reports (provided by C05/C08); "
-        "CacheWF: a cached log starts at the cached snapshot's offset and data exists only under a real id (D15's gap image is C08's)",
+        "CacheOK (bytes the cache holds under its run id are that id's history on the range it reports) and CacheWF (a cached log "
+        "starts at the cached snapshot's offset, data only under a real id) are HYPOTHESES of the single-connection theorems; there is "
+        "no Lean bridge lemma from C05's/C08's models (different types) - they are the intended content of C05/C08, here only checked "
+        "dynamically: caches are built through the real writers, the cache is read back against hist(id1) after every round "
+        "(cache-bytes), and cache_consistent_after / reach_inv re-establish them from the empty cache for every sequence the model "
+        "contains. CacheWF.contig additionally relies on the collector dropping the snapshot before any log segment (ds.go gcLogs; "
+        "the harness runs with the collector off)",
         "Truthful (the stored position describes what the target holds) is an invariant proved for every sequence of connections, "
-        "interrupted replays, restarts and source changes of the repaired code (truthful_initially / _preserved / _source_change), "
+        "interrupted replays, restarts and source changes of the repaired code (reach_inv / reach_safe: induction over init, connection with any ending in either mode, source change, cache loss or "
+        "replacement, lost position; a restart in resume mode keeps the position and its label and is no transition), "
         "assuming the sender stores exactly the offset of the last command it applied (C01/C07) and a source's new run id is new. "
         "The older label-based theorem keeps StoredCompat: a resume position stored under the previous id while the cache is already labelled with the current id lies "
         "in the shared prefix. syncMeta compares the stored id only with the set {id1,id2}; theorem storedCompat_needed shows the "
@@ -129,21 +187,35 @@ PROP = {
         "seen ~1/500 disk full syncs) is repeated from scratch by the harness (stat aborted_attempts_repeated); a deterministic abort "
         "survives the repeats and is reported as run-aborted",
     ],
-    "partial": [],
+    "partial": [
+        "not modelled / not generated: the log collector (MaxSize>0) between connections, several run-id directories in one disk store, "
+        "a +CONTINUE whose id differs from the id INFO returned a moment earlier, the Run() retry loop (ErrCorrupted -> DelRunId, "
+        "back-off), diskless replies ($EOF:, $0), int64 wrap of offset+1, an error of channel.StartPoint (ignored by the code), faults "
+        "in output.StartPoint (3 x 2 s retries), bisync bookkeeping",
+        "the truth of the target after a Send is set by the model (`afterSend`: .at id1 e) = the sender applies exactly the commands up "
+        "to the offset it stores (C01/C07); tied here by the real-send window schedules on the target's request log",
+    ],
 }
 
 MANIFEST = {
     "text": "Lean theorems over ALL source states, stored positions, cache descriptions (both backends) and histories: after syncMeta + "
             "writer/reader start the output receives either log bytes starting exactly at the stored offset, all equal to the current "
-            "history, with CONTINUE granted and the consumed prefix in the current history, or one complete snapshot (the source's on "
-            "FULLRESYNC, a cached one only under CONTINUE without clearing) of a history agreeing below its offset; request offset = "
-            "writer start + 1; never a later start; run id and cache label always the source's current id; nothing of the old cache "
-            "survives clearLocal/FULLRESYNC; the cache invariant is re-established for the next connection; the run never aborts. "
-            "The model (syncMeta decision table, SendPSync, channel query/maintenance API of both backends, Redis admission rule) is "
-            "tied to the code by differential correspondence of the real RedisInput.run against a RESP source double, plus an "
-            "independent end-to-end byte monitor.",
-    "note": "trusted: Lean kernel (propext, Classical.choice, Quot.sound only), Redis PSYNC admission rule transcription, source double; "
-            "assumes CacheOK (C05/C08) and StoredCompat (stored label vs cache label, shown necessary)",
-    "technique": "Lean 4 proof (decision-table case analysis into three outcome specifications, omega) + differential correspondence "
-                 "over loopback + end-to-end monitor",
+            "history, with CONTINUE granted, or one complete snapshot (the source's on FULLRESYNC, a cached one only under CONTINUE "
+            "without clearing, never behind the stored position) of a history agreeing below its offset; request offset = writer start "
+            "+ 1; never a later start; run id and cache label always the source's current id; nothing of the old cache survives "
+            "clearLocal/FULLRESYNC; the run never aborts. Over EVERY sequence of connections (any ending, resume and in-memory mode), "
+            "source changes, cache losses/replacements and lost positions (inductive `Reach`): the stored position stays truthful and a "
+            "log is only ever continued exactly on top of what the target really holds, in a prefix of the current history "
+            "(reach_inv, reach_safe). The model (decision table, SendPSync, channel API of both backends, Redis admission rule, the "
+            "output's position bookkeeping) is tied to the code by differential correspondence of the real RedisInput.run against a "
+            "RESP source double, by restart-in-window schedules with the real RedisOutput bookkeeping and the real RedisOutput.Send on "
+            "the shared target double (hand-off judged on the target's request log), fault injection into the bookkeeping calls, an "
+            "independent end-to-end byte monitor and a re-extracted source skeleton. Three defects found and fixed (07a0622, 23cb23d, 58997e8).",
+    "note": "trusted: Lean kernel (propext, Classical.choice, Quot.sound only), Redis PSYNC admission rule transcription, source double, "
+            "target double; CacheOK/CacheWF are hypotheses (C05/C08's content, no Lean bridge; re-established by cache_consistent_after and "
+            "checked by read-back); the label-based outcome_continue_or_full additionally needs StoredCompat, which is NOT an invariant "
+            "(storedCompat_not_invariant) - the label-free reach_safe needs no such hypothesis",
+    "technique": "Lean 4 proof (decision-table case analysis into three outcome specifications, invariant by induction over an inductive "
+                 "reachability relation, omega) + differential correspondence over loopback + real-output window schedules + fault "
+                 "injection + end-to-end monitors",
 }
